@@ -5,7 +5,8 @@ import z3
 
 from pyvc import values as V
 from pyvc.contracts import Call, FunctionContract, Outcome
-from pyvc.values import F64, INT, SArr, SFloat, SInt, forall_range
+from pyvc.interp import exc_class
+from pyvc.values import F64, INT, SArr, SFloat, SInt, SObj, forall_range
 
 
 def _inputs(interp, with_p='p'):
@@ -211,3 +212,101 @@ class EvalNamespace(FunctionContract):
 
 
 CONTRACTS.append(EvalNamespace())
+
+
+# ---------------------------------------------------------------------------------------------------------------
+# VectorContainer._resolve_expression_indexes: backticked labels -> positions, everything positional left as it is
+# ---------------------------------------------------------------------------------------------------------------
+class ResolveIndexes(FunctionContract):
+    """_resolve_expression_indexes(expression) rewrites every bracketed index: a backticked label becomes the position that label indexing
+    selects (looked up through the span look-up), a label slice is closed on the right (stop label's position + 1), purely positional parts
+    (plain integers, including 0 and negative ones, omitted bounds, the step) keep their text and therefore their ordinary Python meaning;
+    the container itself is not altered (nothing is stored on it).  Expressions are enumerated; the span look-up is the assumed contract."""
+    qualname = 'fsic.core.containers.VectorContainer._resolve_expression_indexes'
+    props = ('C16',)
+
+    SPAN = [2000, 2001, 2002, 2003, 2004]
+    # expression -> the same expression with positions (as the statement prescribes), or an exception class
+    CASES = {
+        'X[`2001`]': 'X[1]', 'X[`2000`] + Y[`2004`]': 'X[0] + Y[4]', 'X[`2001`:`2003`]': 'X[1:4:]', 'X[`2001`:`2003`:2]': 'X[1:4:2]', 'X[:`2002`]': 'X[:3:]',
+        'X[`2003`:]': 'X[3::]', 'X[`2000`:`2000`]': 'X[0:1:]', 'X[1] + Y[`2002`]': 'X[1] + Y[2]', 'X[-1] + Y[`2002`]': 'X[-1] + Y[2]',
+        'X[1:3] + Y[`2002`]': 'X[1:3:] + Y[2]', 'X[:0] + Y[`2002`]': 'X[:0:] + Y[2]', 'X[4:0:-1] + Y[`2002`]': 'X[4:0:-1] + Y[2]', 'X[0:2] + Y[`2002`]': 'X[0:2:] + Y[2]',
+        'X[::2] + Y[`2002`]': 'X[::2] + Y[2]', 'X[-3:-1] + Y[`2002`]': 'X[-3:-1:] + Y[2]', 'X[`2001`:3]': 'X[1:3:]', 'X[1:`2003`]': 'X[1:4:]',
+        'X[ `2001` ]': 'X[1]', 'X[`1999`]': KeyError, 'X[`abc`]': KeyError, 'X[`2001`:`2002`:1:2]': ValueError, 'X + Y': 'X + Y',
+    }
+
+    def scenarios(self):
+        return [f'expr{i}' for i in range(len(self.CASES))] + ['twice-then-other-span']
+
+    def setup(self, interp, scenario):
+        from fsic.core.containers import VectorContainer
+        e = {'scenario': scenario, 'located': []}
+        span = list(self.SPAN)
+        obj = SObj(VectorContainer, {'span': span, 'index': ['X', 'Y']}, label='c')
+        e['obj'] = obj
+
+        def locate(interp_, o, args, kwargs, node):
+            lab = args[0]
+            e['located'].append(lab)
+            if lab in o.fields['span']:
+                return o.fields['span'].index(lab)
+            from pyvc.interp import PyRaise
+            from pyvc.values import SExc
+            raise PyRaise(SExc(KeyError, origin='locate'))
+        interp.registry.set_calls({'fsic.core.containers.VectorContainer._locate_period_in_span': locate})
+        if scenario == 'twice-then-other-span':
+            expr = 'X[`2001`:`2003`]'
+        else:
+            expr = list(self.CASES)[int(scenario[4:])]
+        e['expr'] = expr
+        e['fields_before'] = {k: (list(v) if isinstance(v, list) else v) for k, v in obj.fields.items()}
+        if scenario == 'twice-then-other-span':
+            # history: the same expression on the same object after its span has changed (as after a reindex that copies the object's state)
+            from pyvc.extract import get_function
+            fi = get_function(self.qualname)
+            e['first'] = interp.call_function(fi, [obj, expr], {}, self_obj=obj)
+            obj.fields['span'] = [2001, 2002, 2003, 2004, 2005]
+            e['fields_before'] = {k: (list(v) if isinstance(v, list) else v) for k, v in obj.fields.items()}
+        e['inputs'] = {}
+        return Call([expr], {}, self_obj=obj, entry=e)
+
+    def post(self, interp, scenario, call, out):
+        ctx = interp.ctx
+        e = call.entry
+        fields_now = {k: (list(v) if isinstance(v, list) else v) for k, v in e['obj'].fields.items()}
+        ctx.prove(z3.BoolVal(fields_now == e['fields_before']), 'the_container_is_not_altered_(nothing_is_stored_on_it)', 'frame', note=str(sorted(set(fields_now) ^ set(e['fields_before']))))
+        if scenario == 'twice-then-other-span':
+            ctx.prove(z3.BoolVal(e['first'] == 'X[1:4:]' and out.kind == 'return' and out.value == 'X[0:3:]'), 'positions_follow_the_current_span_on_every_call', 'ensures',
+                      note=f"{e['first']} then {getattr(out, 'value', None)}")
+            return
+        want = self.CASES[e['expr']]
+        if out.kind == 'raise':
+            ctx.prove(z3.BoolVal(isinstance(want, type) and exc_class(out.exc) is want), 'only_an_unknown_label_or_a_malformed_slice_raises', 'raises', note=getattr(exc_class(out.exc), '__name__', '?'))
+            return
+        got = out.value
+        same = isinstance(want, str) and isinstance(got, str) and _same_indexing(got, want)
+        ctx.prove(z3.BoolVal(same), 'labels_become_their_positions_(closed_label_slices)_and_positional_parts_keep_their_python_meaning', 'ensures', note=f'{got!r} vs {want!r}')
+
+
+def _same_indexing(got: str, want: str) -> bool:
+    """Two index expressions select the same elements when every bracket denotes the same index / slice object (blanks and an omitted or empty
+    step are spelling)."""
+    import re as _re
+
+    def norm(text):
+        out = []
+        for m in _re.finditer(r'\[([^\]]*)\]', text):
+            parts = [p.strip() for p in m.group(1).split(':')]
+            if len(parts) == 1:
+                out.append(('i', int(parts[0])))
+            else:
+                parts += [''] * (3 - len(parts))
+                out.append(('s',) + tuple(None if p == '' else int(p) for p in parts[:3]))
+        return _re.sub(r'\[[^\]]*\]', '[]', text).replace(' ', ''), out
+    try:
+        return norm(got) == norm(want)
+    except ValueError:
+        return False
+
+
+CONTRACTS.append(ResolveIndexes())
